@@ -42,7 +42,7 @@ Definition fbr_return_bits (r : fbr) (n : Z) : res fbr :=
 (** *** reversed reader (BitReaderReversed): starts at the most significant bit of the last byte; after the
     beginning of the source it yields zero bits and counts them ([bits_remaining] goes negative) *)
 Definition byte_bits_msb (x : Z) : list bit := rev (byte_bits_lsb 8 x).
-Definition bits_of_bytes_rev (l : list Z) : list bit := flat_map byte_bits_msb (rev l).
+Definition bits_of_bytes_rev (l : list Z) : list bit := flat_map byte_bits_msb (rev' l).
 
 Record rbr := { r_rest : list bit; r_left : Z (* = length r_rest *); r_extra : Z }.
 Definition rbr_new (src : list Z) : rbr :=
